@@ -40,6 +40,28 @@ def _fresh(v):
     return False
 
 
+# attributes that hold a list of objects which are themselves mutable (Composite, Element, data nodes): a new list around
+# the same objects is not a copy - writing a value through the copy changes the original
+DEEP_ATTRS = {'elements', 'children'}
+
+
+def _deep_fresh(v):
+    """the expression builds a new container *and* new items"""
+    if isinstance(v, (ast.List, ast.Tuple)):
+        return all(_fresh(e) and not isinstance(e, ast.Name) for e in v.elts)
+    if isinstance(v, (ast.ListComp, ast.GeneratorExp)):
+        return _fresh(v.elt) and not isinstance(v.elt, (ast.List, ast.Dict, ast.Set)) or isinstance(v.elt, ast.Constant)
+    if isinstance(v, ast.Call):
+        r, m = A.call_target(v)
+        if m == 'deepcopy':
+            return True
+        if r is None and m in ('list', 'tuple') and len(v.args) == 1:
+            return _deep_fresh(v.args[0])
+        if r is None and m in ('list', 'tuple') and not v.args:
+            return True
+    return False
+
+
 IMMUTABLE_OK = {'x12_map_node', 'parent', 'seg_term', 'ele_term', 'subele_term', 'type', 'seg_id', 'seg_count', 'cur_line_number'}
 
 
@@ -68,8 +90,25 @@ def r1_copy_ownership(ctx):
                     if attr in IMMUTABLE_OK:
                         continue
                     ok = _fresh(s.value)
-                    yield Ob(km('%s:%s %s is a fresh object' % (mod, qual, p)), ok, ctx.floc(fn, s),
-                             '' if ok else '%s = %s shares a mutable object with the original' % (p, norm(s.value)))
+                    why = '%s = %s shares a mutable object with the original' % (p, norm(s.value))
+                    if ok and attr in DEEP_ATTRS and any(isinstance(x, ast.Name) and x.id == 'self' for x in ast.walk(s.value)):
+                        ok = _deep_fresh(s.value)
+                        why = ('%s = %s is a new list around the same item objects: a value written through the copy (set, set_value) '
+                               'changes the original as well' % (p, norm(s.value)))
+                    yield Ob(km('%s:%s %s is a fresh object' % (mod, qual, p)), ok, ctx.floc(fn, s), '' if ok else why)
+        # items added to a list of mutable items of the copy are new objects
+        for x in ast.walk(fn):
+            if isinstance(x, ast.Call):
+                r, m = A.call_target(x)
+                if r and r.startswith(rv + '.') and r[len(rv) + 1:] in DEEP_ATTRS and r[len(rv) + 1:] != 'children' and m in ('append', 'extend', 'insert') and x.args:
+                    a = x.args[-1]
+                    ok = _deep_fresh(a) if m == 'extend' else (_fresh(a) and not isinstance(a, ast.Name))
+                    if isinstance(a, ast.Name):
+                        # a local: every reaching definition must be a fresh object
+                        defs = [d.value for d in ast.walk(fn) if isinstance(d, ast.Assign) and path_of(d.targets[0]) == a.id]
+                        ok = bool(defs) and all(_fresh(d) for d in defs)
+                    yield Ob(km('%s:%s item added to %s is a new object' % (mod, qual, r)), ok, ctx.floc(fn, x),
+                             '' if ok else '`%s` puts an object of the original into the copy' % norm(x))
         # constructor arguments that are mutable objects of self
         ctor = [s for s in ast.walk(fn) if isinstance(s, ast.Assign) and path_of(s.targets[0]) == rv and isinstance(s.value, ast.Call)]
         for s in ctor:
